@@ -11,9 +11,9 @@ RULE = ('(1) payload lists (reference-generated, all payload kinds; plus a VENDO
         'put into real Message objects with each of the 6 cipher/integrity pairs, random keys and IVs (fresh Crypto objects, and sequences of 8 messages through one Crypto object); to_bytes() output is dissected by the '
         'reference (hmac + AES-CBC primitive): last N octets == HMAC(SK_a, everything before)[:N] with N the negotiated 12/16/32, SK body = '
         'IV(16) + whole blocks, plaintext = payloads + pad + PadLength with PadLength == len(pad), inner bytes == the serialised payloads, only '
-        'SK in the clear; parse() under the same keys returns the same payloads. (2) every tampered variant must make Message.parse raise '
+        'SK in the clear; parse() under the same keys returns the same payloads, also when the reference seals the same content with every legal amount of extra padding (Pad Length up to 255, zero and non-zero fill). (2) every tampered variant must make Message.parse raise '
         'InvalidSyntax / UnsupportedCriticalPayload: every octet x bit (36 representative message x suite combinations incl. empty-body ones of every '
-        'exchange kind; 8 bits on header/IV/ICV, 3 on ciphertext), every truncation, extension by 1..32 octets (with and without fixing '
+        'exchange kind, a third of them also with cleartext payloads in front of SK; 8 bits on header/IV/ICV, 3 on ciphertext), every truncation, extension by 1..32 octets (with and without fixing '
         'the Length field), another SK_a; under another SK_e the message must still authenticate (protocol error or success, nothing else). '
         '(3) wire monitor: in simulated histories every datagram after IKE_SA_INIT has SK as its only cleartext payload, and every datagram whose ICV verifies under the keys the independent shadow derived decrypts (reference AES-CBC under the IV in the datagram) to a well-formed payload chain; every protected datagram of these honest histories must verify under the negotiated integrity algorithm and derived key. '
         'distinct = (suite, residue / tamper region, outcome).')
@@ -35,14 +35,17 @@ def make_crypto(rng, bits, iid):
     return c, (iid, sk_a, sk_e)
 
 
-def build_message(rng, payloads_abs, crypto, exch=None, flags=None, mid=None):
+def build_message(rng, payloads_abs, crypto, exch=None, flags=None, mid=None, clear_first=None):
     inner = codec.enc_chain(payloads_abs)
     first = payloads_abs[0]['type'] if payloads_abs else 0
     objs = r_msg.Message._parse_payloads(inner, r_msg.Payload.Type(first)) if payloads_abs else []
+    clear_objs = []
+    if clear_first:
+        clear_objs = r_msg.Message._parse_payloads(codec.enc_chain(clear_first), r_msg.Payload.Type(clear_first[0]['type']))
     m = r_msg.Message(spi_i=gen.rb(rng, 8), spi_r=gen.rb(rng, 8), major=2, minor=0, exchange_type=exch or rng.choice([35, 36, 37]),
                       is_response=bool((flags if flags is not None else rng.randrange(4)) & 1), can_use_higher_version=False,
                       is_initiator=bool((flags if flags is not None else rng.randrange(4)) & 2), message_id=mid if mid is not None else rng.randrange(2 ** 32),
-                      payloads=[], encrypted_payloads=objs, crypto=crypto)
+                      payloads=clear_objs, encrypted_payloads=objs, crypto=crypto)
     return m, inner, objs
 
 
@@ -80,6 +83,25 @@ def check_roundtrip(ck, rng, payloads_abs, bits, iid, tag, session=None):
         ck.violation('cleartext-payloads-besides-sk', {'types': info['clear_payload_types']}, case)
     if hdr['length'] != len(data):
         ck.violation('length-field-wrong', {}, case)
+    # the same content sealed by the REFERENCE with every legal amount of extra padding (RFC 7296 3.14: any length that aligns must be accepted)
+    if tag in ('vendor-len', 'session', 'empty'):
+        base_pad = (16 - (len(inner) + 1) % 16) % 16
+        hdr_ = {'spi_i': bytes(m.spi_i), 'spi_r': bytes(m.spi_r), 'major': 2, 'minor': 0, 'exch': int(m.exchange_type), 'mid': m.message_id,
+                'flags': (0x20 if m.is_response else 0) | (0x08 if m.is_initiator else 0)}
+        for extra in range(1, 16):
+            pl = base_pad + 16 * extra
+            if pl > 255:
+                break
+            padded = ikecrypto.sk_seal(hdr_, None, iid, keys[1], keys[2], gen.rb(rng, 16), inner_raw=inner, inner_first=payloads_abs[0]['type'] if payloads_abs else 0,
+                                       padlen=pl, pad_fill=None if extra % 2 else b'\xa5\x5a\xff')
+            ck.count('roundtrip.extra_padding')
+            pb, ex_ = try_parse(padded, crypto)
+            if ex_ is not None:
+                ck.violation(f'authentic-message-with-more-than-minimal-padding-rejected:{type(ex_).__name__}', {'pad_length': pl, 'exc': repr(ex_)[:160], **case}, case)
+                break
+            if [bytes(p_.to_bytes()) for p_ in pb.encrypted_payloads] != [bytes(p_.to_bytes()) for p_ in objs]:
+                ck.violation('content-behind-extra-padding-parsed-differently', {'pad_length': pl, **case}, case)
+                break
     # parse back
     back, ex = try_parse(data, crypto)
     if ex is not None:
@@ -217,6 +239,17 @@ def run(ck):
             ck.count('tamper.messages')
             ck.seen('tamper.kinds', (tag, bits, iid))
             tamper(ck, rng, data, crypto, keys, tag, thorough)
+            # the layout the library also supports: cleartext payloads in front of SK (the checksum still covers everything before it)
+            if (ri + si) % 3 == 0:
+                clear = [{'type': 41, 'critical': False, 'proto': 0, 'spi': b'', 'ntype': 16388, 'data': gen.rb(rng, 20)}] + \
+                    ([{'type': 43, 'critical': False, 'data': b'vendor'}] if si % 2 else [])
+                m2, inner2, objs2 = build_message(rng, pls, crypto, exch=exch, clear_first=clear)
+                d2 = bytes(m2.to_bytes())
+                if not ikecrypto.sk_verify(d2, keys[0], keys[1]):
+                    ck.violation('message-with-cleartext-payloads-before-sk-not-protected-as-rfc7296-3.14', {'data': d2}, {'data': d2, 'keys': keys})
+                else:
+                    ck.count('tamper.messages_with_clear_payloads_first')
+                    tamper(ck, rng, d2, crypto, keys, tag + '+clear-first', thorough)
     if thorough:
         # tamper random payload lists too (all 8 bits everywhere)
         for j in range(160):
@@ -265,10 +298,12 @@ def run(ck):
 def verdict(ck):
     c = ck.counters
     ck.floor('round trips', c['roundtrip.messages'], 700)
+    ck.floor('reference-sealed messages with extra padding parsed', c['roundtrip.extra_padding'], 2000)
     ck.floor('round trips through a Crypto object that protected earlier messages', c['roundtrip.session_messages'], 60)
     ck.floor('suite x residue combinations', len(ck.sets['roundtrip.suite_x_residue']), 96)
     ck.floor('tampered variants judged', sum(v for k, v in c.items() if k.startswith('tamper.') and k not in ('tamper.messages', 'tamper.rejected')), 20000)
     ck.floor('tamper regions', len({k for k in c if k.startswith('tamper.bitflip.')}), 5)
     ck.floor('representative messages tampered', c['tamper.messages'], 30)
+    ck.floor('messages with cleartext payloads in front of SK tampered', c['tamper.messages_with_clear_payloads_first'], 10)
     ck.floor('wire datagrams opened', c['wire.datagrams_opened'], 200)
     return None
